@@ -150,7 +150,22 @@ class NameSanitizer:
 
     @staticmethod
     def sanitize_class_name(name: str) -> str:
-        """Convert a raw name into a valid Python class name in PascalCase."""
+        """Convert a raw name into a valid Python class name in PascalCase.
+
+        The result is a fixed point: sanitising it again returns it unchanged. Names are re-sanitised at several
+        places (IRSchema.__post_init__, registry look-ups), so a result that changes on the second pass
+        ("iOS" -> "IOS" -> "Ios") makes a schema unfindable under the name it was registered with.
+        """
+        sanitized = NameSanitizer._sanitize_class_name_once(name)
+        while True:
+            again = NameSanitizer._sanitize_class_name_once(sanitized)
+            if again == sanitized:
+                return sanitized
+            sanitized = again
+
+    @staticmethod
+    def _sanitize_class_name_once(name: str) -> str:
+        """One PascalCase sanitising pass (see sanitize_class_name)."""
         # Split on non-alphanumeric and camel case boundaries
         words = re.findall(r"[A-Z]+(?=[A-Z][a-z])|[A-Z]?[a-z]+|[A-Z]+|[0-9]+", name)
         if not words:  # Fallback if findall is empty (e.g. if name was all symbols)
@@ -167,7 +182,12 @@ class NameSanitizer:
         if cls_name[0].isdigit():  # Check after ensuring cls_name is not empty
             cls_name = "_" + cls_name
         # Avoid Python keywords and reserved names (case-insensitive)
-        if keyword.iskeyword(cls_name.lower()) or cls_name.lower() in NameSanitizer.RESERVED_NAMES:
+        # (the capitalised form itself can be a keyword: "none" -> "None", "true" -> "True")
+        if (
+            keyword.iskeyword(cls_name)
+            or keyword.iskeyword(cls_name.lower())
+            or cls_name.lower() in NameSanitizer.RESERVED_NAMES
+        ):
             cls_name += "_"
         return cls_name
 
